@@ -70,9 +70,16 @@ func cmdRetention(args []string) error {
 	// seeded random configurations: the laws only
 	rng := rand.New(rand.NewSource(Seed()))
 	for i := 0; i < 20000; i++ {
-		sw := config.Sweeper{Enabled: true, RetentionDays: float32(rng.Float64() * math.Pow(10, float64(rng.Intn(5)-1))),
+		sw := config.Sweeper{Enabled: true, RetentionDays: float32(rng.Float64() * math.Pow(10, float64(rng.Intn(7)-1))), // up to 100 000 days
 			RetentionLoadCutoffDuration: time.Duration((rng.Float64()*2 - 0.5) * math.Pow(10, float64(rng.Intn(8)+9)))}
 		check(sw, map[string]interface{}{"retention_days": sw.RetentionDays, "cutoff": sw.RetentionLoadCutoffDuration.String()}, 0, 0, false)
+	}
+	// long retentions (years to centuries) with the default and with explicit margins
+	for _, days := range []float32{370, 1078, 1079, 1100, 3650, 10000, 36500, 100000} {
+		for _, cut := range []time.Duration{0, time.Hour, 240 * time.Hour, -time.Hour} {
+			sw := config.Sweeper{Enabled: true, RetentionDays: days, RetentionLoadCutoffDuration: cut}
+			check(sw, map[string]interface{}{"retention_days": days, "cutoff": cut.String()}, 0, 0, false)
+		}
 	}
 	R.Counters["rows"] = len(rows)
 	return Emit(R)
